@@ -167,13 +167,18 @@ _strtoll (const char *nptr, char **endptr, int base)
 {
   int neg = 0;
   orc_int64 val = 0;
+  const char *start = nptr;
   
   /* Skip all spaces */
   while (isspace (*nptr))
     nptr++;
 
-  if (!*nptr)
+  if (!*nptr) {
+    /* no conversion: like strtoll(), hand back the start of the string */
+    if (endptr)
+      *endptr = (char *) start;
     return val;
+  }
 
   /* Get sign */
   if (*nptr == '-') {
@@ -183,8 +188,11 @@ _strtoll (const char *nptr, char **endptr, int base)
     nptr++;
   }
 
-  if (!*nptr)
+  if (!*nptr) {
+    if (endptr)
+      *endptr = (char *) start;
     return val;
+  }
 
   /* Try to detect the base if none was given */
   if (base == 0) {
